@@ -90,17 +90,15 @@ class C19(Property):
                    )
     clauses_without_theorem = (
         '"quantities expressed in any compatible units" in the sense of the third-party package `quantities`: universal theorems exist at the '
-        'scale-factor reading (L1) for every function and in the quantity algebra (L2) for nernst_potential (constants path), water_viscosity, '
-        'Henry_H_at_T (default T0), electrical_mobility_from_D (SI value and dimension vector) and the float(t_K) of sulfuric_acid_density; for water_density, '
-        'diffusivity, permittivity, lg_solubility_ratio, Henry with explicit T0 and nernst with a units object the L2 reading is decided by correspondence (ops *_u2) only',
+        'scale-factor reading (L1) for every function and in the quantity algebra (L2) for nernst_potential (constants given as numbers or quantities, and a units object), water_viscosity, '
+        'water_density, water_self_diffusion_coefficient (T >= 215.05 K), Henry_H_at_T (default and explicit T0), electrical_mobility_from_D (SI value and dimension '
+        'vector) and the float(t_K) of sulfuric_acid_density; for water_permittivity and lg_solubility_ratio the L2 reading is decided by correspondence (ops *_u2) only',
         'that the L2 algebra describes `quantities` (rescaling on +/-, "must be dimensionless", float(q) = raw magnitude, math.log(q)): correspondence only',
-        'anchor values of water_viscosity as VALUES (the theorem bounds the rational exponent; the conversion of the table to log10 bounds is '
-        'trusted arithmetic), of water_self_diffusion_coefficient (Holz: 2.299e-9 at 25 degC and the other 7 table values), water_permittivity '
+        'anchor values of water_viscosity as DECIMAL values (theorems: rational exponent in (lo, hi) and viscosity in (1.002*10^lo, 1.002*10^hi); that these powers '
+        'of ten lie within the table tolerance is trusted arithmetic), of water_self_diffusion_coefficient (Holz: 2.299e-9 at 25 degC and the other 7 table values), water_permittivity '
         '(78.38436874203077 at 25 degC 1 bar; 80.1 / 55.3), nernst_potential (60.605, -96.8196, 137.0436, -64.0567 mV), Henry (0.001421892; 1.05), '
         'density_from_concentration (1021; 1058.5): irrational (exp / log / non-integer power) or iterative values - oracle on the real code only',
         'water permittivity falls with temperature: proved at the reference pressure 1000 bar only; at the default pressure 1 bar and elsewhere oracle grid only',
-        'range warnings in unit mode for water_permittivity (proved for density, viscosity, diffusivity, sulfuric acid; permittivity: correspondence of the '
-        'translated `...UWarns` predicate with the real warnings)',
         'pressure warnings of water_permittivity (the property names temperature only; the coded pressure rule is mirrored, `P > 5000 bar` is unreachable)',
         'density_from_concentration: proved for an arbitrary callback (returned value = atol-approximate fixed point; returns the first converged iterate iff it '
         'exists within maxiter); WHICH concentrations converge for sulfuric acid is not proved - with the defaults more than half of 0.1 <= w <= 0.9 raises '
